@@ -10,7 +10,8 @@ import GrassProofs.Lemmas.ValueMap
     `Sw.now`       the code as it stands in /repo — since the repairs 312c562 (K1), d046d73 (K2),
                    61f3ffb (K4) it coincides with `Sw.spec`, what the property demands: numbers
                    always compared in the canonical unit of their kind; an argument list compared
-                   as the plain comma list of its positional elements; `map-remove` removing
+                   as the plain unbracketed list of its positional elements with its own
+                   separator (e36bfd5), keywords never counting; `map-remove` removing
                    exactly the keys `==` to the probe,
     `Sw.beforeFix` the tree before those three repairs (after D6/D20),
     `Sw.pinned`    the tree as first found (D6, D20).
@@ -476,6 +477,15 @@ theorem C09_now_repairs_witnesses :
     (remove .now (.cons inch1 strX .nil) cmB).length = 1 ∧
     (remove .now (.cons (l12 .comma false) strX .nil) args12).length = 0 ∧
     veq .now (l12 .comma false) args12 = true ∧ veq .now args12 (l12 .comma false) = true := by
+  decide +kernel
+
+/-- /repo e36bfd5: an argument list made by spreading a space-separated list is the space list of
+    its elements: equal to `(1 2)`, to no comma list and to no comma argument list. -/
+theorem C09_now_arglist_separator :
+    let sargs := Value.arglist (.cons one (.cons two .nil)) (.cons (.str ['k'] false) one .nil) .space
+    veq .now sargs (l12 .space false) = true ∧ veq .now (l12 .space false) sargs = true ∧
+    veq .now sargs (l12 .comma false) = false ∧ veq .now sargs args12 = false ∧
+    veq .now sargs (l12 .space true) = false := by
   decide +kernel
 
 /-- Without `mapWf` map equality is not symmetric (why the guard is there):
